@@ -226,6 +226,43 @@ theorem float_layout_eq (spec : Spec) (bits : Nat) :
   | some body =>
     simp only [Option.map_some, padSigned_eq, pySign, signString]
 
+/-- Floats: `format_float` equals the C-`printf` reference (`pyFormatFloat`, on the correctly rounded
+    digits of `PV.Dec`) for `%e %E %f %F %g %G`, NaN and infinities included, when the precision is at
+    most 65530 and — only needed for `%g` — the digit generator returns the `P` significant digits
+    asked for (`hlen`: the model keeps the code's `{:.*}` truncation of the mantissa text). -/
+theorem float_eq_partial (spec : Spec) (bits : Nat) (k : FloatKind) (up : Bool)
+    (ht : spec.ftype = .float k up) (hp : floatPrecision spec ≤ 65530)
+    (hlen : ∀ P, k = .gen → P = (if floatPrecision spec = 0 then 1 else floatPrecision spec) →
+      (PV.Dec.toExpL (bits % 2 ^ 63) (P - 1)).1.length ≤ P + 1) :
+    formatFloat spec bits =
+      some (pyFormatFloat spec.flags (resolve spec.width) (resolve (toPyPrec spec.prec)) k up bits) := by
+  unfold formatFloat pyFormatFloat
+  simp only [← floatPrecision_eq]
+  by_cases hnf : PV.Dec.isNan (bits % 2 ^ 63) = true ∨ PV.Dec.isInf (bits % 2 ^ 63) = true
+  · rw [floatBody_nonfinite spec bits k up ht hnf]
+    simp only [padSigned_eq, pySign, signString, nanText, infText, ← isNan_abs bits, ← isInf_abs bits]
+    rcases hnf with h | h
+    · simp [h]
+    · by_cases h' : PV.Dec.isNan (bits % 2 ^ 63) = true <;> simp [h, h']
+  · have h1 : PV.Dec.isNan (bits % 2 ^ 63) = false := by
+      cases hh : PV.Dec.isNan (bits % 2 ^ 63) <;> simp_all
+    have h2 : PV.Dec.isInf (bits % 2 ^ 63) = false := by
+      cases hh : PV.Dec.isInf (bits % 2 ^ 63) <;> simp_all
+    rw [floatBody_eq spec bits k up ht hp ⟨h1, h2⟩ hlen]
+    simp only [padSigned_eq, pySign, signString, ← isNan_abs bits, ← isInf_abs bits, h1, h2]
+    simp
+
+/-- `%.3g` as the parser returns it -/
+def specDot3g : Spec :=
+  { key := none, flags := {}, width := none, prec := some (.quantity (.amount 3)),
+    ftype := .float .gen false, fchar := 103 }
+
+example : specFromStr [37, 46, 51, 103] = .ok specDot3g := by decide
+-- the hypotheses of `float_eq_partial` hold for `"%.3g" % 1234.5` (bits 0x40934A0000000000)
+example : floatPrecision specDot3g ≤ 65530 ∧
+    (PV.Dec.toExpL (0x40934A0000000000 % 2 ^ 63) (3 - 1)).1.length ≤ 3 + 1 := by decide
+example : formatFloat specDot3g 0x40934A0000000000 = some [49, 46, 50, 51, 101, 43, 48, 51] := by decide
+
 /-- Witness 5: `"%.65536f" % 1.5` panics (`format!` precision is a `u16`). -/
 theorem float_precision_panics :
     formatFloat { key := none, flags := {}, width := none, prec := some (.quantity (.amount 65536)),
